@@ -156,7 +156,7 @@ func init() {
 		out := GenPrefix(r, c)
 		boot := out[len(out)-1]
 		out = out[:len(out)-1]
-		shapes := []string{"%s-x", "%s", "%s-1-2", "other-1"}
+		shapes := []string{"%s-x", "%s", "%s-1-2", "other-1", "%s-4294967296", "%s-99999999999999999999"}
 		for i := range c.Sets {
 			for j := 0; j < r.Intn(3); j++ {
 				name := shapes[r.Intn(len(shapes))]
@@ -292,6 +292,17 @@ func init() {
 		c.Weights["slots"] = 0
 		c.Weights["slotadd"] = 0
 		c.Weights["xslots"] = 4
+	}, Prefix: func(r *PRNG, c *Config) []Step {
+		out := GenPrefix(r, c)
+		boot := out[len(out)-1]
+		out = out[:len(out)-1]
+		// pods whose names parse as <set>-<digits> but overflow int32, label-less pods
+		for _, name := range []string{"%s-4294967296", "%s-99999999999999999999", "%s-2147483648"} {
+			if r.Chance(0.25) {
+				out = append(out, Step{K: "mkpod", A: 0, B: r.Intn(4), C: []int{ownThis, ownNone}[r.Intn(2)] | 3<<2, D: c.Sets[0].Template, S: sprintf(name, c.Sets[0].Name)})
+			}
+		}
+		return append(out, boot)
 	}}
 
 	// migration from a built-in StatefulSet (C18)
